@@ -27,6 +27,9 @@ RULE = (
     "a_repr returned in that call; with the default a_repr every listed argument (incl. deque and array.array values sized around "
     "the limits) equals what an independently configured reprlib.Repr with the documented limits (50 items / 256 characters) gives; no entry is keyed by an argument that is a class, function, method, module or builtin, nor by "
     "_ARGS/_KWARGS unless the condition names them. Non-trivial = case with a message; distinct = condition text."
+    ' Sets of mutually unorderable items (strings, numbers, None, tuples, bytes) are passed to contracts with the d'
+    'efault a_repr (compared with the reference modulo item order); no entry may be keyed by a name that only the b'
+    'uiltins module provides (NotImplemented, Ellipsis, __debug__ included).'
 )
 ASSUMPTIONS = ["values whose own repr embeds a memory address or iterates a set are not generated"]
 
